@@ -50,26 +50,26 @@ type c15Ent struct {
 }
 
 type c15Scen struct {
-	ID       string           `json:"id"`
-	Ents     []c15Ent         `json:"ents"`
-	Seed     int64            `json:"seed"`
-	Chunk    int              `json:"chunk"`
-	MinChunk int              `json:"minchunk"`
-	Comp     string           `json:"comp"` // gzip | zstd
-	Prio     []string         `json:"prio"`
-	Landmark string           `json:"landmark"` // "build" (estargz.Build: prefetch / no-prefetch landmark) | "none" (plain writer)
-	CS       int64            `json:"cs"`       // registry chunk size
-	PCS      int64            `json:"pcs"`      // prefetch chunk size
-	Cfg      int64            `json:"cfg"`      // configured prefetch size
-	Thr      int64            `json:"thr"`      // PrefetchAsyncSize
-	Cache    string           `json:"cache"`    // dir | memory (memory: chunk-cache state not observable)
-	TmoMs    int              `json:"tmo"`      // prefetch timeout; 1000 = through config.PrefetchTimeoutSec
-	NP       int              `json:"np"`
-	NW       int              `json:"nw"`
-	NB       int              `json:"nb"`
-	Walks    [][]c15Step      `json:"walks"`
-	Free     int              `json:"free"` // number of free-running executions
-	Extra    map[string]any   `json:"-"`
+	ID       string         `json:"id"`
+	Ents     []c15Ent       `json:"ents"`
+	Seed     int64          `json:"seed"`
+	Chunk    int            `json:"chunk"`
+	MinChunk int            `json:"minchunk"`
+	Comp     string         `json:"comp"` // gzip | zstd
+	Prio     []string       `json:"prio"`
+	Landmark string         `json:"landmark"` // "build" (estargz.Build: prefetch / no-prefetch landmark) | "none" (plain writer)
+	CS       int64          `json:"cs"`       // registry chunk size
+	PCS      int64          `json:"pcs"`      // prefetch chunk size
+	Cfg      int64          `json:"cfg"`      // configured prefetch size
+	Thr      int64          `json:"thr"`      // PrefetchAsyncSize
+	Cache    string         `json:"cache"`    // dir | memory (memory: chunk-cache state not observable)
+	TmoMs    int            `json:"tmo"`      // prefetch timeout; 1000 = through config.PrefetchTimeoutSec
+	NP       int            `json:"np"`
+	NW       int            `json:"nw"`
+	NB       int            `json:"nb"`
+	Walks    [][]c15Step    `json:"walks"`
+	Free     int            `json:"free"` // number of free-running executions
+	Extra    map[string]any `json:"-"`
 }
 
 type c15Step map[string]any
@@ -178,13 +178,14 @@ type c15Reg struct {
 	mu     sync.Mutex
 	data   []byte
 	cs     int64
-	mode   string // pass | fail | hold
+	mode   string // foreground requests (prefetch, on-demand reads): pass | fail | hold
+	bgmode string // requests of background fetch (told apart by the 120 s deadline of InvokeBackgroundTask's context)
 	off    bool
 	failAt int // free-run: fail the n-th request from now (0 = never)
 	delay  time.Duration
-	held   []chan string
+	held   map[bool][]chan string // by origin (true = background)
 	nreq   int
-	step   map[int]bool // registry chunks requested since the last take()
+	step   map[bool]map[int]bool // registry chunks requested since the last take(), by origin
 	served map[int]bool
 }
 
@@ -203,13 +204,18 @@ func (r *c15Reg) chunks(off, size int64) (res []int) {
 }
 
 func (r *c15Reg) Fetch(ctx context.Context, off int64, size int64) (io.ReadCloser, error) {
+	dl, hasDl := ctx.Deadline()
+	bg := hasDl && time.Until(dl) > 60*time.Second // blob fetch timeout is 30 s, a background task's context lives 120 s
 	r.mu.Lock()
 	r.nreq++
 	cks := r.chunks(off, size)
 	for _, c := range cks {
-		r.step[c] = true
+		r.step[bg][c] = true
 	}
 	verdict := r.mode
+	if bg {
+		verdict = r.bgmode
+	}
 	if r.off {
 		verdict = "fail"
 	}
@@ -223,7 +229,7 @@ func (r *c15Reg) Fetch(ctx context.Context, off int64, size int64) (io.ReadClose
 	var ch chan string
 	if verdict == "hold" {
 		ch = make(chan string, 1)
-		r.held = append(r.held, ch)
+		r.held[bg] = append(r.held[bg], ch)
 	}
 	r.mu.Unlock()
 	if ch != nil {
@@ -231,9 +237,9 @@ func (r *c15Reg) Fetch(ctx context.Context, off int64, size int64) (io.ReadClose
 		case verdict = <-ch:
 		case <-ctx.Done():
 			r.mu.Lock()
-			for i, h := range r.held {
+			for i, h := range r.held[bg] {
 				if h == ch {
-					r.held = append(r.held[:i], r.held[i+1:]...)
+					r.held[bg] = append(r.held[bg][:i], r.held[bg][i+1:]...)
 					break
 				}
 			}
@@ -269,27 +275,31 @@ func (r *c15Reg) Check() error {
 
 func (r *c15Reg) GenID(off int64, size int64) string { return fmt.Sprintf("b%010d-%010d", off, size) }
 
-func (r *c15Reg) setMode(m string) {
+func (r *c15Reg) setMode(bg bool, m string) {
 	r.mu.Lock()
-	r.mode = m
+	if bg {
+		r.bgmode = m
+	} else {
+		r.mode = m
+	}
 	r.mu.Unlock()
 }
 
-// release answers every held request according to verdict
-func (r *c15Reg) release(verdict string) {
+// release answers every held request of that origin according to verdict
+func (r *c15Reg) release(bg bool, verdict string) {
 	r.mu.Lock()
-	h := r.held
-	r.held = nil
+	h := r.held[bg]
+	r.held[bg] = nil
 	r.mu.Unlock()
 	for _, ch := range h {
 		ch <- verdict
 	}
 }
 
-func (r *c15Reg) heldCount() int {
+func (r *c15Reg) heldCount(bg bool) int {
 	r.mu.Lock()
 	defer r.mu.Unlock()
-	return len(r.held)
+	return len(r.held[bg])
 }
 
 func c15Sorted(m map[int]bool) []int {
@@ -301,12 +311,20 @@ func c15Sorted(m map[int]bool) []int {
 	return res
 }
 
-func (r *c15Reg) take() []int {
+func (r *c15Reg) take(bg bool) []int {
 	r.mu.Lock()
 	defer r.mu.Unlock()
-	res := c15Sorted(r.step)
-	r.step = map[int]bool{}
+	res := c15Sorted(r.step[bg])
+	r.step[bg] = map[int]bool{}
 	return res
+}
+
+func (r *c15Reg) takeAll() []int {
+	m := map[int]bool{}
+	for _, c := range append(r.take(false), r.take(true)...) {
+		m[c] = true
+	}
+	return c15Sorted(m)
 }
 
 func (r *c15Reg) servedSet() []int {
@@ -387,6 +405,8 @@ type c15Env struct {
 	prio    int
 	runner  int
 	brunner int
+	pfPrio  bool // the prefetch body holds a prioritized task (between Range and PrefetchEnd)
+	bgSusp  bool // background fetch was cancelled by a prioritized task and has not resumed
 }
 
 type c15WaitRes struct {
@@ -403,13 +423,16 @@ func c15Mount(sc *c15Scen, b *c15Built, store metadata.Store, storeName string, 
 	}
 	e := &c15Env{sc: sc, store: storeName, root: root, pret: map[int]chan error{}, bret: map[int]chan error{},
 		wret: map[int]chan c15WaitRes{}, wdone: map[int]bool{}}
-	e.reg = &c15Reg{data: b.blob, cs: sc.CS, mode: "pass", step: map[int]bool{}, served: map[int]bool{}}
+	e.reg = &c15Reg{data: b.blob, cs: sc.CS, mode: "pass", bgmode: "pass", step: map[bool]map[int]bool{false: {}, true: {}}, served: map[int]bool{}, held: map[bool][]chan string{}}
+	if gated {
+		e.reg.bgmode = "hold" // requests of background fetch wait for the walk's BgFinish
+	}
 	e.tm = task.NewBackgroundTaskManager(4, c15Silence)
 	cfg := config.Config{
-		PrefetchTimeoutSec: 1,
-		PrefetchAsyncSize:  sc.Thr,
+		PrefetchTimeoutSec:   1,
+		PrefetchAsyncSize:    sc.Thr,
 		DirectoryCacheConfig: config.DirectoryCacheConfig{SyncAdd: true},
-		BlobConfig:         config.BlobConfig{ChunkSize: sc.CS, PrefetchChunkSize: sc.PCS, ValidInterval: 3600, FetchTimeoutSec: 30},
+		BlobConfig:           config.BlobConfig{ChunkSize: sc.CS, PrefetchChunkSize: sc.PCS, ValidInterval: 3600, FetchTimeoutSec: 30},
 	}
 	if sc.Cache == "memory" {
 		cfg.FSCacheType, cfg.HTTPCacheType = memoryCacheType, memoryCacheType
@@ -528,7 +551,7 @@ func c15Mount(sc *c15Scen, b *c15Built, store metadata.Store, storeName string, 
 		}
 	}
 	e.f0 = e.reg.servedSet()
-	e.reg.take()
+	e.reg.takeAll()
 	if gated {
 		e.gates = make(chan *c15Gate, 16)
 		c15Mu.Lock()
@@ -615,7 +638,21 @@ func (e *c15Env) read(i int) (ok bool, msg string) {
 
 // layout of the layer in the terms of Prefetch.tla; span/pre are measured on a metadata reader of the same store
 // over a recording section reader (bytes touched while reading each file alone, in both ways the code reads files)
+var c15ScenCache sync.Map
+
 func (e *c15Env) scenario(b *c15Built, store metadata.Store) (map[string]any, error) {
+	key := e.sc.ID + "/" + e.store
+	if v, ok := c15ScenCache.Load(key); ok {
+		return v.(map[string]any), nil
+	}
+	v, err := e.measure(b, store)
+	if err == nil {
+		c15ScenCache.Store(key, v)
+	}
+	return v, err
+}
+
+func (e *c15Env) measure(b *c15Built, store metadata.Store) (map[string]any, error) {
 	var mu sync.Mutex
 	touched := map[int]bool{}
 	rec := io.NewSectionReader(readerAtFunc(func(p []byte, off int64) (int, error) {
@@ -754,18 +791,50 @@ func (e *c15Env) nextGate(prefix string, d time.Duration) *c15Gate {
 	}
 }
 
-func (e *c15Env) waitHeld(want bool, d time.Duration) bool {
+const c15Tick = time.Millisecond
+
+// waitHeld waits until requests of that origin are held back by the registry (want) or none is (!want)
+func (e *c15Env) waitHeld(bg, want bool, d time.Duration) bool {
 	end := time.Now().Add(d)
 	for time.Now().Before(end) {
-		if (e.reg.heldCount() > 0) == want {
+		if (e.reg.heldCount(bg) > 0) == want {
 			if want {
-				time.Sleep(20 * time.Millisecond) // let parallel requests of the same call arrive
+				time.Sleep(5 * c15Tick) // parallel requests of the same call
 			}
 			return true
 		}
-		time.Sleep(time.Millisecond)
+		time.Sleep(c15Tick)
 	}
 	return false
+}
+
+// bgResumed: the background fetch may run again (no prioritized task): it re-issues its requests, which the registry
+// holds, or it finds everything in the caches and returns
+func (e *c15Env) bgResumed() {
+	if !e.bgSusp || e.prio > 0 || e.pfPrio {
+		return
+	}
+	e.bgSusp = false
+	end := time.Now().Add(c15Long)
+	for time.Now().Before(end) {
+		if e.reg.heldCount(true) > 0 {
+			time.Sleep(5 * c15Tick)
+			e.bgStall = true
+			return
+		}
+		if ch := e.bret[e.brunner]; ch != nil && len(ch) > 0 {
+			return
+		}
+		time.Sleep(c15Tick)
+	}
+}
+
+// bgSuspended: a prioritized task began: running background bodies are cancelled, their held requests return
+func (e *c15Env) bgSuspended() {
+	if e.bgStall {
+		e.waitHeld(true, false, c15Long)
+		e.bgStall, e.bgSusp = false, true
+	}
 }
 
 func c15Int(v any) int {
@@ -787,24 +856,42 @@ func c15Res(err error) string {
 
 // waiters that have returned with a timeout error without being asked (real time passed): logged as they are seen
 func (e *c15Env) pollWaiters(out *[]map[string]any) {
+	closed := false
+	select {
+	case <-e.l.prefetchWaiter.doneCh:
+		closed = true // every waiting call returns now: wait for it instead of guessing
+	default:
+	}
 	for w, ch := range e.wret {
 		if e.wdone[w] {
 			continue
 		}
-		select {
-		case r := <-ch:
-			if r.err != nil {
-				e.wdone[w] = true
-				*out = append(*out, map[string]any{"ev": "WaitTimeout", "w": w, "res": "timeout", "ms": r.ms, "spont": true, "req": []int{}})
-			} else {
-				ch <- r // a nil return is reported when the walk asks for it
+		var r c15WaitRes
+		if closed {
+			select {
+			case r = <-ch:
+			case <-time.After(c15Long):
+				continue
 			}
-		default:
+		} else {
+			select {
+			case r = <-ch:
+			default:
+				continue
+			}
+		}
+		if r.err != nil {
+			e.wdone[w] = true
+			*out = append(*out, map[string]any{"ev": "WaitTimeout", "w": w, "res": "timeout", "ms": r.ms, "spont": true, "req": []int{}})
+		} else {
+			ch <- r // a nil return is reported when the walk asks for it
 		}
 	}
 }
 
 const c15Long = 8 * time.Second
+
+var c15Modes = map[string]string{"ok": "pass", "fail": "fail"}
 
 // step executes one spec action if it is applicable to the implementation's present situation; returns the events
 func (e *c15Env) step(s c15Step) (evs []map[string]any, applied bool) {
@@ -818,10 +905,13 @@ func (e *c15Env) step(s c15Step) (evs []map[string]any, applied bool) {
 		e.pret[p] = ch
 		go func() { ch <- e.l.Prefetch(e.sc.Cfg) }()
 		ev["p"] = p
-		g := e.nextGate("layer.prefetch.start", 60*time.Millisecond)
-		ev["won"] = g != nil
-		if g != nil {
-			e.pfGate, e.runner = g, p
+		ev["won"] = false
+		if e.runner == 0 {
+			// nobody has taken the Once yet: this call must reach the first gate
+			if g := e.nextGate("layer.prefetch.start", c15Long); g != nil {
+				e.pfGate, e.runner = g, p
+				ev["won"] = true
+			}
 		}
 	case "Range":
 		if e.pfGate == nil || e.pfGate.name != "layer.prefetch.start" {
@@ -829,14 +919,12 @@ func (e *c15Env) step(s c15Step) (evs []map[string]any, applied bool) {
 		}
 		close(e.pfGate.rel)
 		e.pfGate = e.nextGate("layer.prefetch.", c15Long)
+		e.pfPrio = true
 		ev["size"] = -1
 		if e.pfGate != nil && e.pfGate.name == "layer.prefetch.range" {
 			ev["size"] = e.pfGate.kv[1].(int64)
 		}
-		if e.bgStall {
-			e.waitHeld(false, 2*time.Second)
-			e.bgStall = false
-		}
+		e.bgSuspended()
 	case "AsyncThreshold":
 		if e.pfGate == nil || e.pfGate.name != "layer.prefetch.range" {
 			return nil, false
@@ -847,32 +935,38 @@ func (e *c15Env) step(s c15Step) (evs []map[string]any, applied bool) {
 		if e.pfGate == nil || e.pfGate.name != "layer.prefetch.fetch" {
 			return nil, false
 		}
-		e.reg.setMode("hold")
+		e.reg.setMode(false, "hold")
 		close(e.pfGate.rel)
 		e.pfGate = nil
-		if !e.waitHeld(true, 2*time.Second) {
-			// nothing had to be requested: the call went through
-			e.reg.setMode("pass")
-			e.pfGate = e.nextGate("layer.prefetch.fetched", c15Long)
-			ev["ev"], ev["r"], ev["want"] = "BlobCache", "ok", "ok"
-			break
+		// either a request is held, or nothing had to be requested and the call went through to the next gate
+		end := time.Now().Add(c15Long)
+		for e.pfGate == nil && time.Now().Before(end) {
+			if e.reg.heldCount(false) > 0 {
+				time.Sleep(5 * c15Tick)
+				e.pfStall = true
+				break
+			}
+			e.pfGate = e.nextGate("layer.prefetch.fetched", c15Tick)
 		}
-		e.pfStall = true
+		if !e.pfStall {
+			e.reg.setMode(false, "pass")
+			ev["ev"], ev["r"], ev["want"] = "BlobCache", "ok", "ok"
+		}
 	case "BlobCache":
 		r, _ := s["r"].(string)
-		mode := map[string]string{"ok": "pass", "fail": "fail"}[r]
+		mode := c15Modes[r]
 		if e.pfStall {
-			e.reg.setMode(mode)
-			e.reg.release(mode)
+			e.reg.setMode(false, mode)
+			e.reg.release(false, mode)
 			e.pfStall = false
 		} else if e.pfGate != nil && e.pfGate.name == "layer.prefetch.fetch" {
-			e.reg.setMode(mode)
+			e.reg.setMode(false, mode)
 			close(e.pfGate.rel)
 		} else {
 			return nil, false
 		}
 		e.pfGate = e.nextGate("layer.prefetch.fetched", c15Long)
-		e.reg.setMode("pass")
+		e.reg.setMode(false, "pass")
 		ev["r"], ev["want"] = "hung", r
 		if e.pfGate != nil {
 			err, _ := e.pfGate.kv[1].(error)
@@ -886,10 +980,10 @@ func (e *c15Env) step(s c15Step) (evs []map[string]any, applied bool) {
 		if err, _ := e.pfGate.kv[1].(error); err != nil {
 			return nil, false
 		}
-		e.reg.setMode(map[string]string{"ok": "pass", "fail": "fail"}[r])
+		e.reg.setMode(false, c15Modes[r])
 		close(e.pfGate.rel)
-		e.pfGate = e.nextGate("layer.prefetch.cached", c15Long)
-		e.reg.setMode("pass")
+		e.pfGate = e.nextGate("layer.prefetch.cached", 4*c15Long)
+		e.reg.setMode(false, "pass")
 		ev["r"], ev["want"] = "hung", r
 		if e.pfGate != nil {
 			err, _ := e.pfGate.kv[1].(error)
@@ -920,7 +1014,8 @@ func (e *c15Env) step(s c15Step) (evs []map[string]any, applied bool) {
 			delete(e.pret, e.runner)
 		case <-time.After(c15Long):
 		}
-		time.Sleep(3 * c15Silence) // DonePrioritizedTask takes effect after the silence period
+		e.pfPrio = false
+		e.bgResumed()
 	case "PrefetchReturn":
 		p := c15Int(s["p"])
 		ch := e.pret[p]
@@ -945,7 +1040,6 @@ func (e *c15Env) step(s c15Step) (evs []map[string]any, applied bool) {
 			ch <- c15WaitRes{err, time.Since(t0).Milliseconds()}
 		}()
 		ev["w"] = w
-		time.Sleep(2 * time.Millisecond)
 	case "WaitReturn", "WaitTimeout":
 		w := c15Int(s["w"])
 		ch := e.wret[w]
@@ -972,36 +1066,37 @@ func (e *c15Env) step(s c15Step) (evs []map[string]any, applied bool) {
 		e.bret[b] = ch
 		go func() { ch <- e.l.BackgroundFetch() }()
 		ev["b"] = b
-		g := e.nextGate("layer.bgfetch.start", 60*time.Millisecond)
-		ev["won"] = g != nil
-		if g != nil {
-			e.bgGate, e.brunner = g, b
+		ev["won"] = false
+		if e.brunner == 0 {
+			if g := e.nextGate("layer.bgfetch.start", c15Long); g != nil {
+				e.bgGate, e.brunner = g, b
+				ev["won"] = true
+			}
 		}
 	case "BgStall":
-		if e.bgGate == nil {
+		if e.bgGate == nil || e.prio > 0 || e.pfPrio {
 			return nil, false
 		}
-		e.reg.setMode("hold")
-		close(e.bgGate.rel)
+		close(e.bgGate.rel) // background requests are held from the start (bgmode)
 		e.bgGate = nil
-		if !e.waitHeld(true, 2*time.Second) {
+		e.bgSusp = true
+		e.bgResumed()
+		if !e.bgStall {
 			return e.bgFinish(ev, "pass")
 		}
-		e.bgStall = true
 	case "BgFinish":
 		r, _ := s["r"].(string)
-		mode := map[string]string{"ok": "pass", "fail": "fail"}[r]
-		if e.bgGate != nil {
-			e.reg.setMode(mode)
-			close(e.bgGate.rel)
-			e.bgGate = nil
-		} else if e.bret[e.brunner] != nil && e.brunner != 0 {
-			e.reg.setMode(mode)
-			e.reg.release(mode)
-			e.bgStall = false
-		} else {
+		mode := c15Modes[r]
+		if e.brunner == 0 || e.bret[e.brunner] == nil || e.prio > 0 || e.pfPrio {
 			return nil, false
 		}
+		e.reg.setMode(true, mode)
+		if e.bgGate != nil {
+			close(e.bgGate.rel)
+			e.bgGate = nil
+		}
+		e.reg.release(true, mode)
+		e.bgStall, e.bgSusp = false, false
 		return e.bgFinish(ev, mode)
 	case "BgReturn":
 		b := c15Int(s["b"])
@@ -1020,25 +1115,18 @@ func (e *c15Env) step(s c15Step) (evs []map[string]any, applied bool) {
 	case "PrioBegin":
 		e.tm.DoPrioritizedTask()
 		e.prio++
-		if e.bgStall {
-			e.waitHeld(false, 2*time.Second)
-			e.bgStall = false
-		}
+		e.bgSuspended()
 	case "PrioEnd":
 		if e.prio == 0 {
 			return nil, false
 		}
 		e.prio--
 		e.tm.DonePrioritizedTask()
-		time.Sleep(3 * c15Silence)
+		e.bgResumed()
 	case "Read":
 		f := c15Int(s["f"])
-		e.reg.mu.Lock()
-		holding := e.reg.mode == "hold"
-		e.reg.mu.Unlock()
-		// while the registry holds requests back (also: background fetch suspended with its requests still to be held)
-		// a read of the driver would be held too: not executed
-		if e.pfStall || e.bgStall || holding || f < 1 || f > len(e.files) {
+		// while the registry holds requests back a read of the driver could join a held fetch (singleflight): not executed
+		if e.pfStall || e.bgStall || f < 1 || f > len(e.files) {
 			return nil, false
 		}
 		ok, msg := e.read(f - 1)
@@ -1046,7 +1134,6 @@ func (e *c15Env) step(s c15Step) (evs []map[string]any, applied bool) {
 		if !ok {
 			ev["err"] = msg
 		}
-		time.Sleep(3 * c15Silence) // the read was a prioritized task
 	case "RegistryOff", "RegistryOn":
 		e.reg.mu.Lock()
 		e.reg.off = act == "RegistryOff"
@@ -1055,7 +1142,7 @@ func (e *c15Env) step(s c15Step) (evs []map[string]any, applied bool) {
 		return nil, false
 	}
 	e.pollWaiters(&evs)
-	ev["req"] = e.reg.take()
+	ev["req"] = e.reg.take(false)
 	evs = append(evs, ev)
 	return evs, true
 }
@@ -1070,12 +1157,12 @@ func (e *c15Env) bgFinish(ev map[string]any, mode string) ([]map[string]any, boo
 			ev["err"] = err.Error()
 		}
 		delete(e.bret, e.brunner)
-	case <-time.After(2 * c15Long):
+	case <-time.After(4 * c15Long):
 	}
-	e.reg.setMode("pass")
+	e.reg.setMode(true, "hold")
 	var evs []map[string]any
 	e.pollWaiters(&evs)
-	ev["req"] = e.reg.take()
+	ev["req"] = e.reg.take(true) // everything background fetch asked for, including requests repeated after a suspension
 	return append(evs, ev), true
 }
 
@@ -1083,9 +1170,10 @@ func (e *c15Env) bgFinish(ev map[string]any, mode string) ([]map[string]any, boo
 func (e *c15Env) finish() {
 	e.reg.mu.Lock()
 	e.reg.off = false
-	e.reg.mode = "pass"
+	e.reg.mode, e.reg.bgmode = "pass", "pass"
 	e.reg.mu.Unlock()
-	e.reg.release("pass")
+	e.reg.release(false, "pass")
+	e.reg.release(true, "pass")
 	for e.prio > 0 {
 		e.prio--
 		e.tm.DonePrioritizedTask()
@@ -1106,7 +1194,7 @@ func (e *c15Env) finish() {
 			close(g.rel)
 		case <-end:
 			return
-		case <-time.After(2 * time.Millisecond):
+		case <-time.After(c15Tick):
 		}
 		for p, ch := range e.pret {
 			select {
@@ -1147,7 +1235,8 @@ func c15Replay(sc *c15Scen, b *c15Built, store metadata.Store, storeName string,
 	if err != nil {
 		return nil, err
 	}
-	out := []map[string]any{{"ev": "Reset", "sc": scn, "obs": e.obs()}}
+	prev := e.obs()
+	out := []map[string]any{{"ev": "Reset", "sc": scn, "obs": prev}}
 	skipped := 0
 	for _, s := range walk {
 		evs, ok := e.step(s)
@@ -1157,7 +1246,20 @@ func c15Replay(sc *c15Scen, b *c15Built, store metadata.Store, storeName string,
 		}
 		o := e.obs()
 		for _, ev := range evs {
-			ev["obs"] = o
+			if ev["spont"] == true {
+				// a timeout the driver did not ask for happened at some point during the step: it is placed before the
+				// step (its own effect is the closed waiter only)
+				po := map[string]any{}
+				for k, v := range prev {
+					po[k] = v
+				}
+				po["wclosed"] = true
+				ev["obs"] = po
+				prev = po
+			} else {
+				ev["obs"] = o
+				prev = o
+			}
 			out = append(out, ev)
 		}
 	}
@@ -1227,7 +1329,7 @@ func c15Free(sc *c15Scen, b *c15Built, store metadata.Store, storeName string, i
 	if pres[0] != nil || pres[1] != nil {
 		res = "fail"
 	}
-	preq := e.reg.take()
+	preq := e.reg.takeAll()
 	if variant == 1 {
 		preq = []int{} // background fetch ran at the same time: its requests cannot be told apart
 	}
@@ -1240,7 +1342,7 @@ func c15Free(sc *c15Scen, b *c15Built, store metadata.Store, storeName string, i
 		// the reads the first part of the property speaks about
 		for i := range e.files {
 			ok, _ := e.read(i)
-			rec.add(map[string]any{"ev": "Read", "f": i + 1, "ok": ok, "req": e.reg.take(), "obs": e.obs()})
+			rec.add(map[string]any{"ev": "Read", "f": i + 1, "ok": ok, "req": e.reg.takeAll(), "obs": e.obs()})
 			if rng.Intn(2) == 0 {
 				break
 			}
@@ -1276,7 +1378,7 @@ func c15Free(sc *c15Scen, b *c15Built, store metadata.Store, storeName string, i
 			bg = "fail"
 		}
 	}
-	e.reg.take()
+	e.reg.takeAll()
 	rec.add(map[string]any{"ev": "BgFinish", "b": 1, "r": bg, "want": want, "req": []int{}, "obs": e.obs()})
 	e.reg.mu.Lock()
 	e.reg.off = true
@@ -1284,7 +1386,7 @@ func c15Free(sc *c15Scen, b *c15Built, store metadata.Store, storeName string, i
 	rec.add(map[string]any{"ev": "RegistryOff", "req": []int{}, "obs": e.obs()})
 	for i := range e.files {
 		ok, msg := e.read(i)
-		ev := map[string]any{"ev": "Read", "f": i + 1, "ok": ok, "req": e.reg.take(), "obs": e.obs()}
+		ev := map[string]any{"ev": "Read", "f": i + 1, "ok": ok, "req": e.reg.takeAll(), "obs": e.obs()}
 		if !ok {
 			ev["err"] = msg
 		}
@@ -1325,6 +1427,7 @@ func VerifC15(t VerifC15T, store metadata.Store, storeName string) {
 		walk []c15Step
 		iter int
 		idx  int
+		free bool
 	}
 	var jobs []job
 	for i := range inp.Scens {
@@ -1340,9 +1443,8 @@ func VerifC15(t VerifC15T, store metadata.Store, storeName string) {
 			for _, w := range sc.Walks {
 				jobs = append(jobs, job{sc: sc, b: b, walk: w, idx: len(jobs)})
 			}
-		case "free":
 			for k := 0; k < sc.Free; k++ {
-				jobs = append(jobs, job{sc: sc, b: b, iter: k, idx: len(jobs)})
+				jobs = append(jobs, job{sc: sc, b: b, iter: k, idx: len(jobs), free: true})
 			}
 		}
 	}
@@ -1375,9 +1477,11 @@ func VerifC15(t VerifC15T, store metadata.Store, storeName string) {
 				}
 				results[j.idx] = []map[string]any{{"ev": "Layout", "sc": scn}}
 			case "replay":
-				results[j.idx], errs[j.idx] = c15Replay(j.sc, j.b, store, storeName, j.walk)
-			case "free":
-				results[j.idx], errs[j.idx] = c15Free(j.sc, j.b, store, storeName, j.iter)
+				if j.free {
+					results[j.idx], errs[j.idx] = c15Free(j.sc, j.b, store, storeName, j.iter)
+				} else {
+					results[j.idx], errs[j.idx] = c15Replay(j.sc, j.b, store, storeName, j.walk)
+				}
 			}
 		}(j)
 	}
@@ -1387,13 +1491,22 @@ func VerifC15(t VerifC15T, store metadata.Store, storeName string) {
 		t.Fatalf("output: %v", err)
 	}
 	defer f.Close()
-	enc := json.NewEncoder(f)
+	ff, err := os.Create(inp.Out + ".free." + storeName)
+	if err != nil {
+		t.Fatalf("output: %v", err)
+	}
+	defer ff.Close()
+	enc, fenc := json.NewEncoder(f), json.NewEncoder(ff)
 	for i, r := range results {
 		if errs[i] != nil {
 			t.Fatalf("job %d (%s): %v", i, jobs[i].sc.ID, errs[i])
 		}
 		for _, ev := range r {
-			if err := enc.Encode(ev); err != nil {
+			en := enc
+			if jobs[i].free {
+				en = fenc
+			}
+			if err := en.Encode(ev); err != nil {
 				t.Fatalf("output: %v", err)
 			}
 		}
